@@ -669,7 +669,7 @@ sStackCompress(GlobalLU_t *Glu)
     ucol = dto;
 
     ifrom = lsub;
-    ito = (int_t *) ((char*)ucol + xusub[ndim] * iword);
+    ito = (int_t *) ((char*)ucol + xusub[ndim] * dword);
     copy_mem_int(xlsub[ndim], ifrom, ito);
     lsub = ito;
     
